@@ -59,3 +59,71 @@ Definition u_divisor (a : sx) : sx :=
   | L [dv; A k] => match as_divisor dv with Some d => ok (of_Q (d k)) | None => bad_input end
   | _ => bad_input
   end.
+
+(* ------------------------------------------------------------------ C02 *)
+From VL Require Import Model.Quota Model.QuotaDistributor.
+
+Definition as_quota (s : sx) : option quota_spec :=
+  match s with
+  | L [A 0; q] => match as_Q q with Some q => Some (QConst q) | None => None end
+  | L [A i] => Some (QNamed i)
+  | _ => None
+  end.
+Definition as_policy (s : sx) : option policy :=
+  match s with A 0 => Some PIgnore | A 1 => Some PError | A 2 => Some PSubtract | _ => None end.
+Definition of_key (k : key) : sx := match k with K c => of_pos c | KT l => L (map of_pos l) end.
+Definition unmodelled : sx := L [A 4].
+Definition E_ZERODIV : Z := 12.
+Definition of_qd (r : qd_result) : sx :=
+  match r with
+  | QD_ok sel => ok (of_dict of_key A sel)
+  | QD_vse => err E_VSE
+  | QD_zerodiv => err E_ZERODIV
+  | QD_index => err E_INDEX
+  | QD_unmodelled => unmodelled
+  | QD_fuel => err E_FUEL
+  end.
+
+(* args: (quota accept_equal policy votes n prev caps) *)
+Definition u_quota_distributor (lr : bool) (a : sx) : sx :=
+  match a with
+  | L [qs; ae; po; v; A n; p; c] =>
+      match as_quota qs, as_bool ae, as_policy po, as_dict as_pos as_Q v, as_dict as_pos as_Z p, as_dict as_pos as_Z c with
+      | Some qs, Some ae, Some po, Some votes, Some prev, Some caps =>
+          if lr then
+            match lr_evaluate (quota_fn qs) ae po votes n prev caps with
+            | LR_ok sel => ok (of_dict of_key A sel)
+            | LR_err r => of_qd r
+            | LR_index => unmodelled
+            end
+          else of_qd (qd_evaluate (quota_fn qs) ae po votes n prev caps)
+      | _, _, _, _, _, _ => bad_input
+      end
+  | _ => bad_input
+  end.
+
+(* args: (quota votes seats) -> quota value *)
+Definition u_quota (a : sx) : sx :=
+  match a with
+  | L [qs; v; A s] =>
+      match as_quota qs, as_Q v with
+      | Some qs, Some v => ok (of_Q (quota_fn qs v s))
+      | _, _ => bad_input
+      end
+  | _ => bad_input
+  end.
+
+(* args: (quota accept_equal select votes n) *)
+Definition u_quota_selector (a : sx) : sx :=
+  match a with
+  | L [qs; ae; se; v; A n] =>
+      match as_quota qs, as_bool ae, as_bool se, as_dict as_pos as_Q v with
+      | Some qs, Some ae, Some se, Some votes =>
+          match qsel_evaluate (quota_fn qs) ae se votes n with
+          | QS_ok r => ok (L (map of_res r))
+          | QS_vse => err E_VSE
+          end
+      | _, _, _, _ => bad_input
+      end
+  | _ => bad_input
+  end.
